@@ -411,6 +411,7 @@ func stageMatrix(rep *lib.Report, extraCids []cidT) {
 		return
 	}
 	mism, outside, panics := 0, 0, 0
+	knownPanic := false
 	for i, s := range specs {
 		line := strings.TrimPrefix(out[i], "m ")
 		if len(line) != len(cids) {
@@ -438,6 +439,12 @@ func stageMatrix(rep *lib.Report, extraCids []cidT) {
 			}
 			if real == 'p' {
 				panics++
+				if model == 'p' && !knownPanic {
+					// F13: run once as the fixed-corpus input of the recorded finding
+					knownPanic = true
+					corpusWrite(kF13, content())
+					rep.Fail(kF13, fmt.Sprintf("%s specification %v: the pattern does not compile, config.Load keeps a nil *regexp.Regexp and the first match panics (identifier %v)", roles[s.role], s.c, c), content(), false)
+				}
 			}
 			if inDomain {
 				t := byte('0')
@@ -472,6 +479,21 @@ func stageMatrix(rep *lib.Report, extraCids []cidT) {
 		"real": string(realMatch(cfg, specs[7], cids[3].real()))})
 }
 
+// corpusWrite (maintenance mode VERIF_C04_WRITE_CORPUS=1) stores the first failing input of every recorded
+// disagreement class under corpus/findings/C04_shapes/, the replay files referenced by known_findings.json.
+var corpusWritten = map[string]bool{}
+
+func corpusWrite(key string, content []byte) {
+	if os.Getenv("VERIF_C04_WRITE_CORPUS") == "" || corpusWritten[key] {
+		return
+	}
+	corpusWritten[key] = true
+	d := lib.Root() + "/corpus/findings/C04_shapes"
+	os.MkdirAll(d, 0o755)
+	name := strings.NewReplacer("/", "_", ":", "_", " ", "_").Replace(key)
+	os.WriteFile(d+"/"+name+".txt", append([]byte("# property=C04 key="+key+"\n"), content...), 0o644)
+}
+
 func main() {
 	rep := lib.NewReport(prop)
 	rep.Rule = "regex: (pattern,text) pairs built from target texts (matching / near-miss / unrelated / random / invalid; anchored and unanchored); " +
@@ -480,5 +502,6 @@ func main() {
 	stageRegex(rep)
 	siteCids := stageSites(rep)
 	stageMatrix(rep, siteCids)
+	stageE2E(rep)
 	rep.Finish()
 }
